@@ -14,7 +14,7 @@ use std::{
 
 use serde_json::{json, Value};
 
-use crate::core::*;
+use crate::{core::*, sched};
 
 #[derive(Clone, Copy, Debug, PartialEq, Eq, PartialOrd, Ord, Hash)]
 enum Src {
@@ -495,6 +495,306 @@ const FLAGS: &[&str] = &[
     "--no-ignore-files", "--no-require-git", "-u", "-uu", "-uuu",
 ];
 
+// ---------------------------------------------------------------------------
+// Layer 2: rules that contain a slash. A rule in a PARENT directory's ignore
+// file is anchored to that directory whatever the search roots are and
+// however deep the entry lies; a -g glob with a slash is anchored to the
+// current directory however the root is spelled. With several roots the
+// answer must not depend on their order or on the thread schedule.
+
+const AFILES: &[&str] = &["R/t.x", "R/k.x", "R/S/t.x", "R/S/k.x", "R/S/U/t.x", "Q/t.x", "Q/S/t.x"];
+
+/// The verdict of the rule lines on ONE path (P-relative; gitignore semantics
+/// for literal patterns; the last matching line wins).
+fn rule_verdict(lines: &[&str], q: &str, is_dir: bool) -> Option<bool> {
+    let mut verdict = None;
+    for l in lines {
+        let (neg, body) = match l.strip_prefix('!') {
+            Some(b) => (true, b),
+            None => (false, *l),
+        };
+        let dir_only = body.ends_with('/');
+        let core = body.trim_end_matches('/');
+        let anchored = core.contains('/');
+        let pat = core.trim_start_matches('/');
+        let hit = (!dir_only || is_dir) && if anchored { q == pat } else { q.rsplit('/').next() == Some(pat) };
+        if hit {
+            verdict = Some(!neg);
+        }
+    }
+    verdict
+}
+
+/// Is the file `f` (P-relative) below the root `root` (P-relative, "" = P)
+/// skipped? The walker tests every entry strictly below the root on its way
+/// down; the root itself is named explicitly and always searched.
+fn anchored_ignored(lines: &[&str], f: &str, root: &str) -> bool {
+    let comps: Vec<&str> = f.split('/').collect();
+    let skip = root.split('/').filter(|c| !c.is_empty()).count();
+    for n in skip + 1..=comps.len() {
+        let q = comps[..n].join("/");
+        if rule_verdict(lines, &q, n < comps.len()) == Some(true) {
+            return true;
+        }
+    }
+    false
+}
+
+struct AnchoredResult {
+    runs: u64,
+    schedules: u64,
+    nontrivial: u64,
+    disc: Vec<(String, Value)>,
+}
+
+fn anchored_layer(rg: &Path, tier: Tier) -> AnchoredResult {
+    let rule_sets: Vec<Vec<&str>> = vec![
+        vec!["/R/t.x"], vec!["/R/S/t.x"], vec!["/R/S/U/t.x"], vec!["R/S/t.x"], vec!["R/S/U/t.x"], vec!["/R/S/"], vec!["/R/S"], vec!["/R/S/U/"],
+        vec!["/Q/t.x"], vec!["/Q/S/t.x"], vec!["/Q/"], vec!["/t.x"], vec!["S/t.x"], vec!["/R/k.x"], vec!["/S/t.x"],
+        vec!["t.x", "!/R/S/t.x"], vec!["t.x", "!/Q/S/t.x"], vec!["t.x", "!/R/t.x", "/R/S/U/t.x"], vec!["/R/S/t.x", "/Q/t.x"],
+    ];
+    // (cwd below P, path arguments, prefix that turns a printed path into a P-relative one)
+    let root_sets: Vec<(&str, Vec<&str>)> = vec![
+        ("", vec!["R"]), ("", vec!["./R"]), ("", vec!["R/"]), ("", vec!["R", "Q"]), ("", vec!["Q", "R"]), ("", vec!["ABS:R"]), ("", vec!["R/S"]),
+        ("", vec!["R/S", "Q"]), ("", vec!["Q", "R/S"]), ("", vec![]), ("R", vec![]), ("R", vec!["S"]), ("R/S", vec![]), ("", vec!["ABS:R", "Q"]), ("R", vec![".", "../Q"]),
+    ];
+    let sources = ["ignore", "gitignore"];
+    // work items
+    let mut work: Vec<(usize, usize, usize)> = vec![];
+    for ri in 0..rule_sets.len() {
+        for ro in 0..root_sets.len() {
+            for si in 0..sources.len() {
+                if si == 1 && (ri + ro) % tier.pick(3, 1) != 0 {
+                    continue;
+                }
+                work.push((ri, ro, si));
+            }
+        }
+    }
+    // -g globs with a slash: (cwd, globs, roots)
+    let glob_sets: Vec<Vec<&str>> = vec![vec!["!R/S/t.x"], vec!["!/R/S/t.x"], vec!["R/S/*.x"], vec!["!R/S/"], vec!["/R/t.x"], vec!["!Q/*.x", "!R/S/U/t.x"]];
+    let next = std::sync::atomic::AtomicUsize::new(0);
+    let res = std::sync::Mutex::new(AnchoredResult { runs: 0, schedules: 0, nontrivial: 0, disc: vec![] });
+    let total_items = work.len() + glob_sets.len() * 6;
+    std::thread::scope(|sc| {
+        for _ in 0..ncpu() {
+            sc.spawn(|| {
+                let scratch = Scratch::new("c05a");
+                let pdir = scratch.path.join("P");
+                for f in AFILES {
+                    let p = pdir.join(f);
+                    std::fs::create_dir_all(p.parent().unwrap()).unwrap_or_else(|_| machinery_error("scratch"));
+                    std::fs::write(&p, b"x\n").unwrap_or_else(|_| machinery_error("scratch"));
+                }
+                std::fs::create_dir_all(scratch.path.join("home")).unwrap();
+                let trace_path = scratch.path.join("trace");
+                let mut local = AnchoredResult { runs: 0, schedules: 0, nontrivial: 0, disc: vec![] };
+                // one rg run; returns the P-relative set of listed files
+                let run = |cwd: &str, roots: &[&str], extra: &[String], threads: &str, sched_prefix: Option<&[usize]>| -> Result<(BTreeSet<String>, Option<ignore::verif::Trace>), String> {
+                    let mut cmd = Command::new(rg);
+                    let cwdp = if cwd.is_empty() { pdir.clone() } else { pdir.join(cwd) };
+                    cmd.env_clear().env("HOME", scratch.path.join("home")).current_dir(&cwdp).args(["--no-config", "--files"]);
+                    match threads {
+                        "sort" => {
+                            cmd.args(["--sort", "path"]);
+                        }
+                        t => {
+                            cmd.arg(t);
+                        }
+                    }
+                    for e in extra {
+                        cmd.arg(e);
+                    }
+                    for r in roots {
+                        match r.strip_prefix("ABS:") {
+                            Some(rel) => cmd.arg(pdir.join(rel)),
+                            None => cmd.arg(r),
+                        };
+                    }
+                    if let Some(pre) = sched_prefix {
+                        let _ = std::fs::remove_file(&trace_path);
+                        let spec = pre.iter().map(|c| c.to_string()).collect::<Vec<_>>().join(",");
+                        cmd.env("RG_VERIF_SCHED", format!("{};horizon=20000", spec)).env("RG_VERIF_TRACE", &trace_path);
+                    }
+                    let out = cmd.output().map_err(|e| e.to_string())?;
+                    if out.status.code() == Some(2) {
+                        return Err(format!("rg failed: {}", String::from_utf8_lossy(&out.stderr)));
+                    }
+                    let abs = format!("{}/", pdir.display());
+                    let mut set = BTreeSet::new();
+                    for l in String::from_utf8_lossy(&out.stdout).lines() {
+                        let rel = if let Some(r) = l.strip_prefix(abs.as_str()) {
+                            r.to_string()
+                        } else {
+                            // relative to cwd: normalise ./ and ../
+                            let mut comps: Vec<&str> = cwd.split('/').filter(|c| !c.is_empty()).collect();
+                            for c in l.split('/') {
+                                match c {
+                                    "." | "" => {}
+                                    ".." => {
+                                        comps.pop();
+                                    }
+                                    c => comps.push(c),
+                                }
+                            }
+                            comps.join("/")
+                        };
+                        let base = rel.rsplit('/').next().unwrap_or("");
+                        if base.starts_with('.') || rel.contains(".git/") {
+                            continue;
+                        }
+                        set.insert(rel);
+                    }
+                    let trace = sched_prefix.and_then(|_| std::fs::read_to_string(&trace_path).ok()).map(|t| crate::c08::parse_trace(&t));
+                    Ok((set, trace))
+                };
+                // which files lie under the roots (with the root they lie under;
+                // the longest one if roots nest)
+                let under = |cwd: &str, roots: &[&str]| -> Vec<(&'static str, String)> {
+                    let mut rs: Vec<String> = vec![];
+                    if roots.is_empty() {
+                        rs.push(cwd.to_string());
+                    }
+                    for r in roots {
+                        let r = r.strip_prefix("ABS:").unwrap_or(r);
+                        let mut comps: Vec<&str> = cwd.split('/').filter(|c| !c.is_empty()).collect();
+                        for c in r.split('/') {
+                            match c {
+                                "." | "" => {}
+                                ".." => {
+                                    comps.pop();
+                                }
+                                c => comps.push(c),
+                            }
+                        }
+                        rs.push(comps.join("/"));
+                    }
+                    AFILES
+                        .iter()
+                        .copied()
+                        .filter_map(|f| {
+                            rs.iter().filter(|r| r.is_empty() || f.starts_with(&format!("{}/", r))).max_by_key(|r| r.len()).map(|r| (f, r.clone()))
+                        })
+                        .collect()
+                };
+                loop {
+                    let i = next.fetch_add(1, std::sync::atomic::Ordering::Relaxed);
+                    if i >= total_items {
+                        break;
+                    }
+                    // reset the rule files
+                    for n in [".ignore", ".gitignore"] {
+                        let _ = std::fs::remove_file(pdir.join(n));
+                    }
+                    let _ = std::fs::remove_dir_all(pdir.join(".git"));
+                    let (label, cwd, roots, extra, want): (String, &str, Vec<&str>, Vec<String>, BTreeSet<String>);
+                    if i < work.len() {
+                        let (ri, ro, si) = work[i];
+                        let lines = &rule_sets[ri];
+                        let (c, r) = &root_sets[ro];
+                        let text: String = lines.iter().map(|l| format!("{}\n", l)).collect();
+                        if si == 0 {
+                            std::fs::write(pdir.join(".ignore"), &text).unwrap();
+                        } else {
+                            std::fs::create_dir_all(pdir.join(".git")).unwrap();
+                            std::fs::write(pdir.join(".gitignore"), &text).unwrap();
+                        }
+                        cwd = c;
+                        roots = r.clone();
+                        extra = vec![];
+                        want = under(cwd, &roots).into_iter().filter(|(f, r)| !anchored_ignored(lines, f, r)).map(|(f, _)| f.to_string()).collect();
+                        label = format!("P/.{} {:?} | cwd P/{} | roots {:?}", sources[si], lines, c, r);
+                        if want.len() < under(cwd, &roots).len() {
+                            local.nontrivial += 1;
+                        }
+                    } else {
+                        let j = i - work.len();
+                        let globs = &glob_sets[j / 6];
+                        let (c, r): (&str, Vec<&str>) = match j % 6 {
+                            0 => ("", vec!["R"]),
+                            1 => ("", vec!["./R"]),
+                            2 => ("", vec!["ABS:R"]),
+                            3 => ("", vec!["R", "Q"]),
+                            4 => ("", vec![]),
+                            _ => ("", vec!["ABS:R", "ABS:Q"]),
+                        };
+                        cwd = c;
+                        roots = r;
+                        extra = globs.iter().flat_map(|g| vec!["-g".to_string(), g.to_string()]).collect();
+                        // -g: '!x' excludes; a set with any plain glob searches only what matches one
+                        let excl: Vec<&str> = globs.iter().filter_map(|g| g.strip_prefix('!')).collect();
+                        let incl: Vec<&str> = globs.iter().copied().filter(|g| !g.starts_with('!')).collect();
+                        let glob_hit = |g: &str, f: &str| -> bool {
+                            let dir_only = g.ends_with('/');
+                            let pat = g.trim_end_matches('/').trim_start_matches('/');
+                            if let Some((d, _)) = pat.split_once("/*.x") {
+                                return f.starts_with(&format!("{}/", d)) && f[d.len() + 1..].ends_with(".x") && !f[d.len() + 1..].contains('/');
+                            }
+                            (!dir_only && f == pat) || f.starts_with(&format!("{}/", pat))
+                        };
+                        want = under(cwd, &roots)
+                            .into_iter()
+                            .map(|(f, _)| f)
+                            .filter(|f| !excl.iter().any(|g| glob_hit(g, f)))
+                            .filter(|f| incl.is_empty() || incl.iter().any(|g| glob_hit(g, f)))
+                            .map(|f| f.to_string())
+                            .collect();
+                        label = format!("-g {:?} | cwd P | roots {:?}", globs, roots);
+                        local.nontrivial += 1;
+                    }
+                    for threads in ["sort", "-j1"] {
+                        match run(cwd, &roots, &extra, threads, None) {
+                            Err(e) => local.disc.push((format!("anchored | error | {}", label), json!({"kind":"rg-error","error":e}))),
+                            Ok((got, _)) => {
+                                local.runs += 1;
+                                if got != want && local.disc.len() < 40 {
+                                    local.disc.push((
+                                        format!("anchored | {} | {}", label, threads),
+                                        json!({"kind":"anchored","case":label,"threads":threads,"rg_lists":got,"reference_lists":want}),
+                                    ));
+                                }
+                            }
+                        }
+                    }
+                    // two threads: every schedule with at most one preemption (budget 60)
+                    let mut stack = vec![sched::Node::root()];
+                    let mut budget = if roots.len() > 1 { tier.pick(60, 400) } else { 1 };
+                    while let Some(node) = stack.pop() {
+                        if budget == 0 {
+                            break;
+                        }
+                        budget -= 1;
+                        match run(cwd, &roots, &extra, "-j2", Some(&node.prefix)) {
+                            Err(e) => local.disc.push((format!("anchored | error | {}", label), json!({"kind":"rg-error","error":e}))),
+                            Ok((got, trace)) => {
+                                local.runs += 1;
+                                local.schedules += 1;
+                                if got != want && local.disc.len() < 40 {
+                                    local.disc.push((
+                                        format!("anchored | {} | -j2", label),
+                                        json!({"kind":"anchored","case":label,"threads":"-j2","schedule_prefix":node.prefix,"rg_lists":got,"reference_lists":want}),
+                                    ));
+                                }
+                                if let Some(t) = trace {
+                                    if t.abort.is_none() {
+                                        stack.extend(sched::children(&node, &t, 1, 0));
+                                    }
+                                }
+                            }
+                        }
+                    }
+                }
+                let mut r = res.lock().unwrap();
+                r.runs += local.runs;
+                r.schedules += local.schedules;
+                r.nontrivial += local.nontrivial;
+                r.disc.extend(local.disc);
+            });
+        }
+    });
+    res.into_inner().unwrap()
+}
+
 pub fn run(args: &Args) -> ! {
     if let Some(r) = &args.replay {
         replay(r);
@@ -614,10 +914,21 @@ pub fn run(args: &Args) -> ! {
             });
         }
     });
-    let (runs, nontrivial, disc) = res.into_inner().unwrap();
+    let (mut runs, mut nontrivial, disc) = res.into_inner().unwrap();
     for (k, v) in disc.iter() {
         verdict.discrepancy(None, k, v.clone());
     }
+    let anch = anchored_layer(&rg, tier);
+    for (k, v) in anch.disc.iter() {
+        verdict.discrepancy(None, k, v.clone());
+    }
+    if anch.nontrivial == 0 || anch.schedules == 0 {
+        machinery_error("C05: the anchored-rule layer is vacuous");
+    }
+    runs += anch.runs;
+    nontrivial += anch.nontrivial;
+    ev.set("anchored_rule_runs", anch.runs);
+    ev.set("anchored_rule_two_thread_schedules", anch.schedules);
     if nontrivial == 0 {
         machinery_error("C05: no scenario ever filtered a file");
     }
@@ -627,10 +938,10 @@ pub fn run(args: &Args) -> ! {
     ev.set("scenarios", n);
     ev.set(
         "rule",
-        "tree P/R/S (P above the search root, R the root, S a subdirectory) with probe entries t.x (file), .h (hidden file), d/ (directory with a file) and controls in R and S; .git in {nowhere, P, R}. Rule = (source in {-g, .rgignore, .ignore, .gitignore, .git/info/exclude, global git ignore, --ignore-file}, placement in {P,R,S} where meaningful, ignore | whitelist, probe). Scenarios: every single rule and every conflicting pair on the same probe (thorough: half of all triples on the file probe) x repository placement, with and without --no-require-git; every single rule x each of --hidden --no-ignore --no-ignore-vcs/-dot/-exclude/-global/-parent/-files --no-require-git -u -uu -uuu alone and in pairs; -t / -T with --type-add; --max-depth 0..2; roots '.', relative, absolute, a subdirectory (so that R and P are parents), an explicit file plus a directory. Observation: `rg --files --sort path`. Oracle: a reference model of the documented precedence (overrides; .rgignore > .ignore > .gitignore > .git/info/exclude > global > --ignore-file, nearest directory first, git sources gated by the repository and --no-require-git, parents by --no-ignore-parent; then types; then hidden unless whitelisted; explicit paths always). distinct_nontrivial = scenarios in which the model filters at least one file.",
+        "tree P/R/S (P above the search root, R the root, S a subdirectory) with probe entries t.x (file), .h (hidden file), d/ (directory with a file) and controls in R and S; .git in {nowhere, P, R}. Rule = (source in {-g, .rgignore, .ignore, .gitignore, .git/info/exclude, global git ignore, --ignore-file}, placement in {P,R,S} where meaningful, ignore | whitelist, probe). Scenarios: every single rule and every conflicting pair on the same probe (thorough: half of all triples on the file probe) x repository placement, with and without --no-require-git; every single rule x each of --hidden --no-ignore --no-ignore-vcs/-dot/-exclude/-global/-parent/-files --no-require-git -u -uu -uuu alone and in pairs; -t / -T with --type-add; --max-depth 0..2; roots '.', relative, absolute, a subdirectory (so that R and P are parents), an explicit file plus a directory. Observation: `rg --files --sort path`. Oracle: a reference model of the documented precedence (overrides; .rgignore > .ignore > .gitignore > .git/info/exclude > global > --ignore-file, nearest directory first, git sources gated by the repository and --no-require-git, parents by --no-ignore-parent; then types; then hidden unless whitelisted; explicit paths always). Layer 2 (rules containing a slash): 19 rule sets in P/.ignore or P/.gitignore anchored at P (/R/t.x, /R/S/t.x, /R/S/U/t.x, R/S/t.x, directory forms, rules for a second tree Q, blanket t.x with an anchored re-include) x 15 ways of naming the roots (R, ./R, R/, absolute, R Q, Q R, R/S Q, from inside R and R/S, . ../Q ...) and 6 -g glob sets with a slash x 6 root spellings, each listed with --sort path, -j1 and -j2 — the latter under the replay scheduler, every schedule with at most one preemption (budget 60 per case) when there are several roots; reference: a rule with a slash matches exactly its path below the directory of its ignore file (below the current directory for -g), whatever the roots, their order, the depth of the entry and the schedule. distinct_nontrivial = scenarios in which the model filters at least one file.",
     );
     ev.set("samples", json!([{"rules": "[.ignore@R !t.x, .gitignore@S t.x]", "git": "R", "flags": ["--no-ignore-dot"]}]));
-    ev.assume("patterns are plain basenames; glob semantics are C04/C12's subject");
+    ev.assume("patterns are plain names or literal paths; glob semantics are C04/C12's subject");
     verdict.finish(ev)
 }
 
